@@ -6,6 +6,7 @@ import LyModel.Val.Drv
 import LyModel.Path.Drv
 import LyModel.Lyb.Drv
 import LyModel.Conc.Drv
+import LyModel.Iff.Drv
 /-! Dispatch table of the line-protocol driver: one handler per component. -/
 namespace LyModel.Drv
 
@@ -19,6 +20,7 @@ def dispatch (comp op : String) (args : List String) : String :=
   | "path" => Path.Drv.handle op args
   | "lyb" => Lyb.Drv.handle op args
   | "conc" => Conc.Drv.handle op args
+  | "iff" => Iff.Drv.handle op args
   | _ => "err NoSuchComponent"
 
 end LyModel.Drv
